@@ -3,3 +3,6 @@ import Ezc3dVerif.Model.Types
 import Ezc3dVerif.Model.Names
 import Ezc3dVerif.Model.Containers
 import Ezc3dVerif.Model.Api
+import Ezc3dVerif.Model.Codec
+import Ezc3dVerif.Model.Write
+import Ezc3dVerif.Model.Read
